@@ -378,7 +378,7 @@ func isMarshalLike(fd *ast.FuncDecl) bool {
 
 // RuleP1: every explicit panic is discharged.
 func RuleP1(c *Ctx) {
-	sc := c.Run.Begin("P1", "every explicit panic() in the library is unreachable: exhaustive switch (X1), empty-stack panics (S1a/S1b on the automaton), guarded queue shift, re-panic inside a recover handler, adoptError fed only *JApiError values, panic(err) under a recover barrier (P2)", 1)
+	sc := c.Run.Begin("P1", "every explicit panic() in the library is unreachable: exhaustive switch (X1), empty-stack panics (S1a/S1b on the automaton), guarded queue shift, adoptError fed only *JApiError values, panic(err) under a recover barrier (P2)", 1)
 	defer sc.End()
 	m, pds, merr := c.Machine()
 	counts := map[string]int{}
@@ -403,7 +403,9 @@ func RuleP1(c *Ctx) {
 			obj, _ := info.Defs[fd.Name].(*types.Func)
 			switch {
 			case inRecoverHandler(info, fd, call):
-				sc.Holds(key, pos, "re-panic of a recovered non-error value inside the recover handler")
+				// a barrier that passes a recovered value on is not a barrier for that value: the
+				// schema library's regex generator panics with a string (F16)
+				sc.Violation(key, pos, "the recover handler panics again with the value it recovered: whatever the guarded calls panic with that the handler does not convert (a string from the schema library's regex generator, say) leaves the library as a panic instead of an error")
 			case inDefaultOfExhaustiveSwitch(c, pk, fd, call):
 				sc.Holds(key, pos, "default arm of a switch that lists every declared constant (X1)")
 			case beyondCompleteTable(c, pk, fd, call):
@@ -972,7 +974,7 @@ func (c *Ctx) underRecoverBarrier(f *types.Func) (bool, string) {
 
 // RuleP2: calls into functions the trusted base documents as panicking sit under a barrier.
 func RuleP2(c *Ctx) {
-	sc := c.Run.Begin("P2", "every call to reader.Read (documented to panic) is inside a function whose deferred recover() sets its error result; the three recover barriers convert only error values and re-panic the rest", 1)
+	sc := c.Run.Begin("P2", "every call to reader.Read (documented to panic) is inside a function whose deferred recover() sets its error result; the recover barriers around the schema library turn every recovered value into the error result", 1)
 	defer sc.End()
 	n := 0
 	c.eachCall(func(cs callSite) {
